@@ -4,7 +4,10 @@ Import ListNotations.
 Local Open Scope string_scope.
 
 Record dfile := { df_name : string; df_imports : list string; df_defs : list string; df_uses : list string }.
-Record dclass := { dc_name : string; dc_implements : list string; dc_ctor : list string; dc_file : string }.
+Record dclass := { dc_name : string; dc_implements : list string; dc_ctor : list string; dc_file : string;
+                   dc_has_json : bool;                       (* the fromJson / toJson routines of the class were found *)
+                   dc_from : list string;                    (* keys read by fromJson, in order *)
+                   dc_to : list (string * string) }.         (* (key written by toJson, field of the item) in order *)
 Record dunion := { du_name : string; du_from : list string; du_to : list (string * string); du_file : string }.
 Record denum := { de_name : string; de_members : list string; de_values : option (list string); de_iota : bool; de_file : string }.
 
@@ -34,7 +37,12 @@ Definition chk_model (c : c6_case) : bool :=
   forallb (fun cl =>
     let ns := find_named pr a KdStruct (dc_name cl) in
     match ns with
-    | n :: _ => ambiguous ns || (strs_eqb (dart_ctor_args n) (dc_ctor cl) && strs_eqb (dart_implements pr n) (dc_implements cl))
+    | n :: _ => ambiguous ns || (strs_eqb (dart_ctor_args n) (dc_ctor cl) && strs_eqb (dart_implements pr n) (dc_implements cl)
+                                 (* fromJson reads and toJson writes exactly the keys Go uses, in field order, one per constructor argument *)
+                                 && dc_has_json cl
+                                 && strs_eqb (dart_json_keys n) (dc_from cl)
+                                 && strs_eqb (dart_json_keys n) (map fst (dc_to cl))
+                                 && strs_eqb (dart_ctor_args n) (map snd (dc_to cl)))
     | [] => (* the abstract class of a union *) negb (match find_named pr a KdUnion (dc_name cl) with [] => true | _ => false end)
     end) (c6_classes c)
   && forallb (fun u =>
@@ -107,7 +115,15 @@ Definition chk_union_wire (c : c6_case) : bool :=
     | [] => true
     end) (c6_unions c).
 
-Definition chk_prop (c : c6_case) : bool := chk_links c && chk_enum_wire c && chk_union_wire c.
+(** the struct routines of a class, on the generated text alone: fromJson passes one value per constructor
+    argument, toJson writes the fields of the constructor in order, under the keys fromJson reads *)
+Definition chk_struct_wire (c : c6_case) : bool :=
+  forallb (fun cl => negb (dc_has_json cl)
+                     || (Nat.eqb (List.length (dc_from cl)) (List.length (dc_ctor cl))
+                         && strs_eqb (map snd (dc_to cl)) (dc_ctor cl)
+                         && strs_eqb (map fst (dc_to cl)) (dc_from cl))) (c6_classes c).
+
+Definition chk_prop (c : c6_case) : bool := chk_links c && chk_enum_wire c && chk_union_wire c && chk_struct_wire c.
 
 Section Generic.
   Context {A : Type} (f : A -> bool).
